@@ -88,6 +88,9 @@ type prodScenario struct {
 	// conducted replay: every internal step of a behaviour of spec/Producer.tla, followed at the hook points by the
 	// conductor (prod_driver_conduct_test.go) when the step list reaches op "conduct"
 	Conduct []condStep `json:"conduct"`
+	// conducted scenarios: a submission re-uses a message OBJECT the producer has already handed back on Successes()/Errors()
+	// (when there is one): to the producer it must be a new message like any other
+	Recycle bool `json:"recycle"`
 }
 
 type gateState struct {
@@ -475,6 +478,7 @@ func runProducerScenario(t testing.TB, rec *vRec, sc *prodScenario) {
 	// the message objects sarama handed back (op resubmit sends such an object again)
 	var retMu sync.Mutex
 	returned := map[int]*ProducerMessage{}
+	recycled := map[int]bool{}
 	wg.Add(2)
 	go func() {
 		defer wg.Done()
@@ -586,6 +590,21 @@ func runProducerScenario(t testing.TB, rec *vRec, sc *prodScenario) {
 			val += strings.Repeat("x", size-len(val))
 		}
 		m := &ProducerMessage{Topic: simTopic, Partition: int32(st.Part), Value: StringEncoder(val), Metadata: st.ID}
+		recycledFrom := 0
+		if sc.Recycle {
+			retMu.Lock()
+			for from, old := range returned {
+				if from > 0 && !recycled[from] && (recycledFrom == 0 || from < recycledFrom) && old != nil {
+					recycledFrom = from
+				}
+			}
+			if recycledFrom > 0 {
+				recycled[recycledFrom] = true
+				m = returned[recycledFrom]
+				m.Metadata, m.Partition, m.Key, m.Headers, m.Value, m.Timestamp = st.ID, int32(st.Part), nil, nil, StringEncoder(val), time.Time{}
+			}
+			retMu.Unlock()
+		}
 		sub := &simSubmitted{value: []byte(val), tsMs: -1}
 		if cfgv.GrowIc > 0 && cfgv.Interceptors > 0 {
 			sub.value = []byte(val + strings.Repeat("g", cfgv.GrowIc))
@@ -619,7 +638,11 @@ func runProducerScenario(t testing.TB, rec *vRec, sc *prodScenario) {
 		c.mu.Lock()
 		c.submitted[st.ID] = sub
 		c.mu.Unlock()
-		rec.Ev("submit", kv{"id": st.ID, "part": st.Part, "keyed": st.Key != "", "size": len(val) + len(st.Key)})
+		if recycledFrom > 0 {
+			rec.Ev("submit", kv{"id": st.ID, "part": st.Part, "keyed": st.Key != "", "size": len(val) + len(st.Key), "resubmitted_object_of": recycledFrom})
+		} else {
+			rec.Ev("submit", kv{"id": st.ID, "part": st.Part, "keyed": st.Key != "", "size": len(val) + len(st.Key)})
+		}
 		sent := make(chan struct{})
 		go func() { prod.Input() <- m; close(sent) }()
 		if conducting {
